@@ -554,6 +554,9 @@ var vpTemplates = []string{
 	/* 52 */ "local \x01\n\x01 = f(\x02)\nlocal function h(\x03, \x02)\n \x03 = g(\x03)\n \x02 = \x02:lower()\n for _, \x04 in ipairs(t) do\n  \x04 = trim(\x04)\n end\n return \x03, \x02\nend\n",
 	// constructor fields written without blanks: the value is a read of the local, the key is not an occurrence
 	/* 53 */ "local \x01 = 1\nlocal u = {\x01=\x01, \x02=\x01}\nt.\x01=\x01\ng = u\n",
+	// a code line that ends in an annotation comment; a file that ends without a newline
+	/* 54 */ "local \x01 = 1\nlocal \x02 = \x01 ---@type number\ng = \x02 + \x01 ---@type number\n",
+	/* 55 */ "local \x01 = 1\nlocal \x02 = 2\nreturn \x01 + \x02",
 }
 
 // vpInstantiate fills the holes of template t with symbolic names; tag prefixes the variable names.
@@ -688,3 +691,8 @@ func (r *rbT) globalMultiFile(name string) bool {
 	}
 	return false
 }
+
+// exported views of the template machinery (for handler-level jobs of package langserver)
+func VpTemplateText(i int) string               { return vpTemplates[i] }
+func VpInstantiate(t string, tag string) []byte { return vpInstantiate(t, tag) }
+func VpOneLine(t string) string                 { return vpOneLine(t) }
